@@ -32,16 +32,38 @@ def frame_for(rng, key):
     return b
 
 
+def normalise(ops):
+    """deku's log -> the requests as DekuBits counts them: a skip is the read_bits that follows it, a read_bytes that finds
+    left-over bits is announced and then served by read_bits (one request), field markers only label what follows"""
+    out, fld, cur, i = [], [], "?", 0
+    while i < len(ops):
+        o = ops[i]
+        if o[0] == "F":
+            cur = o[1]
+        elif o[0] == "p" and i + 1 < len(ops) and ops[i + 1][0] == "b" and ops[i + 1][1] == o[1]:
+            out.append(f"b{o[1]}"); fld.append(cur + " (padding)"); i += 1
+        elif o[0] == "B" and i + 1 < len(ops) and ops[i + 1][0] == "b" and ops[i + 1][1] == 8 * o[1]:
+            out.append(f"B{o[1]}"); fld.append(cur); i += 1
+        elif o[0] in ("b", "B", "s"):
+            out.append(f"{o[0]}{o[1]}"); fld.append(cur)
+        else:
+            out.append("?" + str(o)); fld.append(cur)
+        i += 1
+    return out, fld
+
+
 def run_binding(rep, rng):
     res = core.run_mc("MC_DekuBits", workers=1, timeout=900, cache=False)
     rep.add_model(res, "MC_DekuBits (DeliversPerGrammar for every shape; deviations D1/D2/D4 must fail)")
     if not res["ok"]:
         raise core.ToolError("MC_DekuBits failed: " + res["output_tail"][-600:])
     pred = {}
+    predbits = {}
     for t in res["tuples"]:
-        m = re.match(r'<<"PROGRAM", "([^"]+)", "([^"]*)">>$', t)
+        m = re.match(r'<<"PROGRAM", "([^"]+)", "([^"]*)", "([^"]*)">>$', t)
         if m:
             pred[m.group(1)] = m.group(2)
+            predbits[m.group(1)] = m.group(3)
     if len(pred) < 300:
         raise core.ToolError(f"MC_DekuBits printed only {len(pred)} programs")
     hx = core.build_hx("std")
@@ -61,6 +83,21 @@ def run_binding(rep, rng):
         seen = " ".join(f"{o['op']}{o['n']}" for o in ops)
         if e["outcome"] != "ok" or seen != pred[k]:
             drift.append((k, bytes(b).hex(), seen if e["outcome"] == "ok" else "outcome " + e["outcome"], pred[k]))
+    # the same at the level of bits: deku's own logging (enabled in the recorder through the guarded `log` hook) reports
+    # every read_bits / read_bytes request and every seek of the real decode, with the field being read
+    bev = core.run_hx(hx, ["bits"], [{"bytes": list(b)} for b in frames])
+    bdrift = []
+    for k, b, e in zip(keys, frames, bev):
+        seen, fld = normalise(e["ops"])
+        want = predbits[k].split()
+        if e["outcome"] != "ok" or seen != want:
+            i = next((j for j in range(min(len(seen), len(want))) if seen[j] != want[j]), min(len(seen), len(want)))
+            where = fld[i] if i < len(fld) else "end"
+            bdrift.append((k, bytes(b).hex(), where, seen[i] if i < len(seen) else "-", want[i] if i < len(want) else "-"))
+    for k, hx_, where, seen, want in bdrift[:5]:
+        print(f"MODEL-DRIFT: bit-level reads of shape {k} ({hx_}): at {where} the decoder requests `{seen}`, DekuBits `{want}`")
+    rep.extra["deku_bits_requests_compared"] = sum(len(predbits[k].split()) for k in keys)
+    rep.extra["deku_bits_request_drift"] = len(bdrift)
     for k, hx_, seen, want in drift[:5]:
         print(f"MODEL-DRIFT: read program of shape {k} ({hx_}): decoder `{seen}`, DekuBits `{want}`")
     rep.extra["deku_bits_shapes_replayed"] = len(keys)
